@@ -40,7 +40,7 @@ ASSUMPTIONS = [
 COMPONENTS = {"real": ["atomica plotting.PlotData / Series / plot_series / plot_bars, cascade.*, results.Result / export_results", "matplotlib (agg)", "xlsxwriter"], "stub": ["none"]}
 
 _CORPUS = None
-PROJECTS = ["udt", "usdt", "tb_simple", "hiv", "hypertension", "udt_dyn", "tb_simple_dyn", "hiv_dyn", "hypertension_dyn", "diabetes", "cervicalcancer", "uncertainty", "timed_transfer", "service", "timed_test", "tb"]
+PROJECTS = ["udt", "usdt", "tb_simple", "hiv", "hypertension", "udt_dyn", "tb_simple_dyn", "hiv_dyn", "hypertension_dyn", "diabetes", "cervicalcancer", "uncertainty", "timed_transfer", "service", "timed_test", "timed_indirect", "timed_indirect2", "timed_eligibility", "tb"]
 HEAVY = {"tb"}
 
 
